@@ -66,8 +66,8 @@ fn main() {
         "C01" => dispatch(props::c01::C01, &cfg, &replay),
         "C02" => dispatch(props::c02::C02, &cfg, &replay),
         "C03" => dispatch(props::c03::C03, &cfg, &replay),
-        "C04" => dispatch(props::c04::EditProp(props::c04::Which::C04, Default::default()), &cfg, &replay),
-        "C05" => dispatch(props::c04::EditProp(props::c04::Which::C05, Default::default()), &cfg, &replay),
+        "C04" => dispatch(props::c04::EditProp(props::c04::Which::C04, Default::default(), Default::default()), &cfg, &replay),
+        "C05" => dispatch(props::c04::EditProp(props::c04::Which::C05, Default::default(), Default::default()), &cfg, &replay),
         "C06" => dispatch(props::c06::C06, &cfg, &replay),
         "C07" => dispatch(props::c07::C07, &cfg, &replay),
         "C08" => dispatch(props::c08::C08(Default::default()), &cfg, &replay),
